@@ -431,9 +431,14 @@ func main() {
 	}
 	overlay := map[string]string{}
 	report := map[string]map[string]int{}
-	for _, path := range flag.Args() {
+	for _, arg := range flag.Args() {
+		// an argument may be target=source: rewrite `source` but register it as the replacement of `target`
+		path, srcPath := arg, arg
+		if i := strings.Index(arg, "="); i >= 0 {
+			path, srcPath = arg[:i], arg[i+1:]
+		}
 		fset := token.NewFileSet()
-		f, err := parser.ParseFile(fset, path, nil, parser.ParseComments)
+		f, err := parser.ParseFile(fset, srcPath, nil, parser.ParseComments)
 		if err != nil {
 			fmt.Fprintln(os.Stderr, err)
 			os.Exit(1)
